@@ -10,6 +10,10 @@ TRUSTED_BASE = [
     "POMDP::Model / SparseModel constructors store the given tables unchanged (sparse: entries with |p| <= 1e-6 dropped; "
     "generated non-zero entries are >= 1/64 in the dyadic regime and >= 1e-3 in the general regime)",
 ]
+TRUSTED_BASE += [
+    "ml/C05/driver.ml: closeness (1e-9 abs+rel) is decided by Vio.q_close exactly, behind a double-precision filter that "
+    "only answers when a factor 2 away from the threshold",
+]
 ASSUMPTIONS = [
     "beliefs have exactly S entries (the C++ indexes b[s] unchecked)",
     "exact agreement is claimed on dyadic inputs only (every intermediate fits in 53 bits); "
